@@ -699,6 +699,9 @@ func c06WorkerOf(c *shard.Ctx, name string, depthOnly bool) {
 	if on("part") {
 		w.genPartLevel(&idx, seeds)
 	}
+	if on("toc") {
+		w.genTOC(&idx)
+	}
 	if on("zip") {
 		w.genZipLevel(&idx, seeds)
 	}
